@@ -17,7 +17,7 @@
 //          X                        close after this phase
 //   torrent kinds: 1 active, 2 added but not started, 3 unknown, 4 second active torrent
 // Output (compared with the model):
-//   a<k>[p|m]:<state>.<pos>.<end>,...  (outgoing: p/m = the library opened with a plain / MSE handshake) per segment while the handshake lives; then ok | f<type>.<err> | drop | gone
+//   a<k>[p|m]:<state>.<pos>.<end>,...  (outgoing: p/m = the library opened with a plain / MSE handshake) per segment while the handshake lives; then ok | closed
 //   w=<K V S<n> P<n> H<0|1>> m=<ids up to the bitfield> att=<connections seen> lib=<ok|bad|->
 #include "config.h"
 
@@ -31,9 +31,12 @@
 #include "download/download_main.h"
 #include "torrent/download_info.h"
 #include "protocol/handshake.h"
+#include "protocol/extensions.h"
+#include "protocol/handshake_encryption.h"
 #include "protocol/handshake_manager.h"
 #include "protocol/peer_connection_base.h"
 #include "torrent/exceptions.h"
+#include "torrent/peer/connection_list.h"
 #include "torrent/runtime/network_config.h"
 #include "torrent/utils/log.h"
 
@@ -95,38 +98,28 @@ static Script parse_script(const std::string& s) {
 
 static uint32_t g_peer_ip = 0;   // network order; address of the current case's scripted peer
 
-static torrent::Handshake* find_hs(uint16_t port) {
-  auto* hm = torrent::manager->handshake_manager();
-  auto& v = *(torrent::HandshakeManager::base_type*)(hm);   // private base: C-style cast
-  for (auto& h : v) {
+// HandshakeManager's set of handshakes without spelling its type: a member container if it has one
+// (by any of the usual names), otherwise the (private) base it derives from via its own alias.
+template <class M> static auto& hs_container(M* hm) {
+  if constexpr (requires { hm->m_handshakes; }) return hm->m_handshakes;
+  else if constexpr (requires { hm->m_list; }) return hm->m_list;
+  else return *(typename M::base_type*)hm;
+}
+
+// The handshake of the current scripted peer. HandshakeManager's container is reached only through
+// begin()/end() (whatever it is); `retrying` tells a retry attempt (same address) from the first one.
+static torrent::Handshake* find_hs(uint16_t port, bool retrying) {
+  auto& v = hs_container(torrent::manager->handshake_manager());
+  for (auto itr = std::begin(v); itr != std::end(v); ++itr) {
+    auto* h = &**itr;
     const sockaddr* sa = h->socket_address();
     if (sa != nullptr && sa->sa_family == AF_INET && ntohs(((const sockaddr_in*)sa)->sin_port) == port &&
-        ((const sockaddr_in*)sa)->sin_addr.s_addr == g_peer_ip) return h.get();
+        ((const sockaddr_in*)sa)->sin_addr.s_addr == g_peer_ip && h->encryption()->policy().is_retrying() == retrying) return h;
   }
   return nullptr;
 }
 
-static const char* err_names[] = {"not BitTorrent protocol", "not accepting connections", "unknown download", "download inactive",
-  "seeder rejected", "is self", "invalid value received", "unencrypted connection rejected", "invalid encryption method",
-  "encryption sync failed", "network unreachable", "network timeout", "too many failed chunks", "no peer info",
-  "network socket error", "network read error", "network write error"};
-
-// last "received error: message:<x> <text>." of this case
-static std::string last_error() {
-  size_t p = g_log.rfind("received error: message:");
-  if (p == std::string::npos) {
-    if (g_log.find("handshake dropped:") != std::string::npos) return "drop";
-    return "gone";
-  }
-  p += strlen("received error: message:");
-  size_t sp = g_log.find(' ', p);
-  std::string ty = g_log.substr(p, sp - p);
-  std::string rest = g_log.substr(sp + 1);
-  for (int i = 0; i < 17; i++)
-    if (rest.compare(0, strlen(err_names[i]), err_names[i]) == 0 && rest[strlen(err_names[i])] == '.')
-      return "f" + ty + "." + std::to_string(i);
-  return "f" + ty + ".?";
-}
+static unsigned g_connected = 0;   // ConnectionList::signal_connected of the harness torrents
 
 // One peer-side connection (one attempt).
 struct Conn {
@@ -327,19 +320,19 @@ static std::vector<std::string> segments(const std::string& bytes, const std::st
 }
 
 // Runs one script on one connection. Returns the per-segment trace; outcome in `result` ("" = still open).
-static std::string run_script(Session& S, Conn& c, const Script& sc, uint16_t hs_port, Torrent* T, std::string& result) {
+static std::string run_script(Session& S, Conn& c, const Script& sc, uint16_t hs_port, Torrent* T, std::string& result, bool retrying = false) {
   std::string trace;
-  auto count_err = []() { size_t n = 0, p = 0; while ((p = g_log.find("received error: message:", p)) != std::string::npos) { n++; p++; } return n; };
-  size_t err0 = count_err();
-  size_t log0 = g_log.size();
+  unsigned conn0 = g_connected;
   auto observe = [&]() -> bool {   // true: handshake over
-    torrent::Handshake* h = count_err() != err0 ? nullptr : find_hs(hs_port);   // a failure may already have spawned the retry on the same address
+    torrent::Handshake* h = find_hs(hs_port, retrying);
     if (h != nullptr) {
       trace += (trace.empty() ? "" : ",") + std::to_string((int)h->state()) + "." + std::to_string(h->m_readBuffer.size_position()) + "." +
                std::to_string(h->m_readBuffer.size_end());
       return false;
     }
-    result = (g_log.find("handshake success:", log0) != std::string::npos) ? "ok" : last_error();
+    // outcome without looking at log text or error codes (the property does not constrain them):
+    // a connection was inserted into a connection list, or the handshake is simply gone
+    result = g_connected != conn0 ? "ok" : "closed";
     trace += (trace.empty() ? "" : ",") + result;
     return true;
   };
@@ -443,11 +436,11 @@ static std::string run_case(Session& S, const std::string& line) {
       Conn c(S, w, false, g_case_no * 4 + attempts);
       c.mse = !plainhs;
       result.clear();
-      std::string tr = run_script(S, c, plainhs ? sp : sm, port, T1, result);
+      std::string tr = run_script(S, c, plainhs ? sp : sm, port, T1, result, attempts > 1);
       if (result == "open") {   // the peer goes away: same as a trailing X
         Script cl; cl.close_now = true;
         result.clear();
-        std::string tr2 = run_script(S, c, cl, port, T1, result);
+        std::string tr2 = run_script(S, c, cl, port, T1, result, attempts > 1);
         tr += (tr.empty() || tr2.empty() ? "" : ",") + tr2;
       }
       if (result == "ok" || result == "open") pump(S, {&w});
@@ -471,8 +464,36 @@ static std::string run_case(Session& S, const std::string& line) {
   return outp;
 }
 
-int main() {
+// constants of the COMPILED code for coq/C06/ParamsProbe.v (ROBUSTNESS rule 3)
+static void print_params() {
+  using H = torrent::Handshake;
+  std::cout << "c06_part1_size " << H::part1_size << "\n" << "c06_part2_size " << H::part2_size << "\n"
+            << "c06_handshake_size " << H::handshake_size << "\n" << "c06_read_message_size " << H::read_message_size << "\n"
+            << "c06_enc_negotiation_size " << H::enc_negotiation_size << "\n" << "c06_enc_pad_size " << H::enc_pad_size << "\n"
+            << "c06_enc_pad_read_size " << H::enc_pad_read_size << "\n" << "c06_buffer_size " << sizeof(((H*)nullptr)->m_readBuffer.m_buffer) << "\n"
+            << "c06_vc_length " << torrent::HandshakeEncryption::vc_length << "\n"
+            << "c06_dh_key_length " << torrent::HandshakeEncryption::dh_prime_length << "\n"
+            << "c06_pcb_read_buffer " << (unsigned)torrent::PeerConnectionBase::ProtocolRead::buffer_size << "\n"
+            << "c06_ext_first_invalid " << (int)torrent::ProtocolExtension::FIRST_INVALID << "\n";
+  // largest extension message length read_start accepts (behavioural probe, bisection on a monotone predicate)
+  auto accepts = [](uint32_t n) {
+    torrent::ProtocolExtension e;
+    try { e.read_start(0, n, true); } catch (torrent::communication_error&) { return false; } catch (torrent::internal_error&) { return false; }
+    delete[] e.m_read; e.m_read = nullptr;
+    return true;
+  };
+  uint32_t lo = 0, hi = 1u << 24;      // accepts(lo), !accepts(hi)
+  if (!accepts(lo) || accepts(hi)) lo = 0, hi = 1;
+  while (hi - lo > 1) { uint32_t mid = lo + (hi - lo) / 2; (accepts(mid) ? lo : hi) = mid; }
+  std::cout << "c06_ext_max_len " << lo << "\n";
+  std::cout << "c06_dh_prime";
+  for (unsigned i = 0; i < torrent::HandshakeEncryption::dh_prime_length; i++) std::cout << " " << (unsigned)torrent::HandshakeEncryption::dh_prime[i];
+  std::cout << "\n";
+}
+
+int main(int argc, char** argv) {
   std_setup();
+  if (argc > 1 && std::string(argv[1]) == "--params") { print_params(); return 0; }
   Session S;
   auto mk = [&](const char* name, uint32_t seed, bool corrupt) {
     TorrentSpec spec;
@@ -488,14 +509,23 @@ int main() {
   T4 = mk("c06d", 4, true);
   S.start(T1);
   S.start(T4);
-  torrent::log_open_output("c06", [](const char* d, size_t n, int) { g_log.append(d, n); g_log.push_back('\n'); });
-  torrent::log_add_group_output(torrent::LOG_CONNECTION_HANDSHAKE, "c06");
-  if (getenv("C06_DEBUG")) torrent::log_add_group_output(torrent::LOG_PROTOCOL_NETWORK_ERRORS, "c06");
+  for (Torrent* T : {T1, T2, T4})
+    T->main()->connection_list()->signal_connected().push_back([](auto*) { g_connected++; });
+  if (getenv("C06_DEBUG")) {
+    torrent::log_open_output("c06", [](const char* d, size_t n, int) { g_log.append(d, n); g_log.push_back('\n'); });
+    torrent::log_add_group_output(torrent::LOG_CONNECTION_HANDSHAKE, "c06");
+    torrent::log_add_group_output(torrent::LOG_PROTOCOL_NETWORK_ERRORS, "c06");
+  }
+  // per-case watchdog: a case that does not finish within 30 s of wall time is reported as HANG
+  signal(SIGALRM, [](int) { const char m[] = "HANG\n"; (void)!write(1, m, sizeof m - 1); _exit(5); });
   std::string line;
   while (std::getline(std::cin, line)) {
     if (line.empty()) { std::cout << "BADCASE\n"; continue; }
     try {
-      std::cout << run_case(S, line) << "\n";
+      alarm(30);
+      std::string res = run_case(S, line);
+      alarm(0);
+      std::cout << res << "\n";
     } catch (torrent::internal_error& e) {
       std::string w = e.what();
       w = w.substr(0, w.find('\n'));
